@@ -134,10 +134,11 @@ Definition rl_hp_mutation (a : agent) (k : nat) (u : T) : agent :=
     | None => a                                          (* unreachable: k < len(config) *)
     | Some h =>
       let n := hp_name h in
-      let base := match hp_cache h with
-                  | Some c => Some c                     (* value cached by an earlier mutation *)
-                  | None => getv (a_vals a) n            (* getattr(individual, mutate_attr)    *)
-                  end in
+      (* mutate_param.value = getattr(individual, mutate_attr): the individual's own attribute is the base; the
+         value kept in the configuration is only a cache of it (repaired semantics, fixes/C06-mutate-from-own-attribute;
+         the earlier code read the cache when it was non-empty — the same value on every history that satisfies
+         CacheOk, a stale one when an RLParam(eter) object is aliased or the configuration comes from another agent) *)
+      let base := getv (a_vals a) n in
       match base with
       | None => a                                        (* AttributeError; excluded by wf_agent *)
       | Some v =>
@@ -258,7 +259,45 @@ Definition rl_hp_mutation_first_only (a : agent) (k : nat) (u : T) : agent :=
   | None => a'
   end.
 
-(* (2) one HyperparameterConfig object shared by the whole initial population: the cache lives
+(* (2) the earlier rl_hyperparam_mutation: the cached value, when there is one, is the base *)
+Definition rl_hp_mutation_cache_first (a : agent) (k : nat) (u : T) : agent :=
+  match a_hps a with
+  | [] => {| a_vals := a_vals a; a_hps := a_hps a; a_opts := a_opts a; a_mut := None |}
+  | _ =>
+    match nth_error (a_hps a) k with
+    | None => a
+    | Some h =>
+      let n := hp_name h in
+      let base := match hp_cache h with
+                  | Some c => Some c                     (* value cached by an earlier mutation *)
+                  | None => getv (a_vals a) n            (* getattr(individual, mutate_attr)    *)
+                  end in
+      match base with
+      | None => a
+      | Some v =>
+        let nv := mutate_value (hp_par h) u v in
+        let vals' := setv (a_vals a) n nv in
+        {| a_vals := vals';
+           a_hps := set_cache (a_hps a) k nv;
+           a_opts := reinit_matching vals' n (a_opts a);
+           a_mut := Some n |}
+      end
+    end
+  end.
+
+(* one RLParam(eter) object configured under two names (positions i and j of the configuration): writing the
+   cache of one writes the cache of the other *)
+Definition alias_cache (hps : list hpent) (i j : nat) : list hpent :=
+  match nth_error hps i with
+  | Some h => match hp_cache h with Some c => set_cache hps j c | None => hps end
+  | None => hps
+  end.
+Definition aliased_mutation (a : agent) (i j k : nat) (u : T) : agent :=
+  let a' := rl_hp_mutation_cache_first a k u in
+  {| a_vals := a_vals a'; a_opts := a_opts a'; a_mut := a_mut a';
+     a_hps := if Nat.eqb k i then alias_cache (a_hps a') i j else if Nat.eqb k j then alias_cache (a_hps a') j i else a_hps a' |}.
+
+(* (3) one HyperparameterConfig object shared by the whole initial population: the cache lives
    outside the individuals *)
 Definition with_hps (a : agent) (hps : list hpent) : agent :=
   {| a_vals := a_vals a; a_hps := hps; a_opts := a_opts a; a_mut := a_mut a |}.
@@ -267,7 +306,7 @@ Fixpoint shared_round (shared : list hpent) (pop : list agent) (draws : list (na
   : list hpent * list agent :=
   match pop, draws with
   | a :: pop', (k, u) :: draws' =>
-      let a' := rl_hp_mutation (with_hps a shared) k u in
+      let a' := rl_hp_mutation_cache_first (with_hps a shared) k u in
       let '(sh, rest) := shared_round (a_hps a') pop' draws' in
       (sh, a' :: rest)
   | _, _ => (shared, pop)
